@@ -59,6 +59,8 @@ SPEC = dict(
     level_note="Trusts the harness-side shadow map/canary code (ref/interval_shadow.h), the mmap/munmap interposer as a complete record "
                "of the memory Galois obtains from the OS, and that virtual topologies exercise the same code as real multi-socket "
                "machines. 2 MB *address* alignment of page-pool pages is measured, not demanded (no huge pages in this sandbox). "
+               "No TSan run: TSan reports inside Galois are informational by DESIGN 3.4 and a block handed to two threads is "
+               "decided exactly by the shadow map, so TSan could not change a C09 verdict. "
                "gstl::UnorderedMap is not exercised: FixedSizeAllocator::allocate(n>1) throws bad_alloc by design, so its bucket "
                "array can never be allocated (outside this property).",
     rule="case = one allocator component x one generated history (serial: alloc/free/clear/check operations assigned to random pool "
